@@ -1185,6 +1185,8 @@ func exec(t *testing.T, sc Scn) *runOut {
 		return execRepl(t, sc)
 	case "smerge":
 		return execSmerge(t, sc)
+	case "smerge-lib":
+		return execSmergeLib(t, sc)
 	}
 	return &runOut{notes: map[string]int{}}
 }
@@ -1194,6 +1196,9 @@ func exec(t *testing.T, sc Scn) *runOut {
 func conformable(sc Scn) bool {
 	if sc.Fam == "smerge" {
 		return sc.N <= 3
+	}
+	if sc.Fam == "smerge-lib" { // monitor only (lib_inputs_test.go)
+		return false
 	}
 	return true
 }
@@ -1848,6 +1853,11 @@ func TestVerif(t *testing.T) {
 	for _, sc := range directedSlowClose() {
 		res.Count("directed-slow-close")
 		runScn(t, ms, res, sc, true)
+	}
+	// the library's own streams as inputs (stream.Empty, FromIterator), every mix of up to four: every run
+	for _, sc := range directedLibInputs() {
+		res.Count("directed-lib-inputs")
+		runScn(t, ms, res, sc, false)
 	}
 	// inputs idle for a minute / an hour / a day x {Next pending, not pending, after items} x {item, end, error}
 	for _, sc := range directedIdle() {
